@@ -200,7 +200,7 @@ func c13Run(t *testing.T, sc *ccScenario, plan *c13Plan,
 		inc := w.newInc()
 		w.mu.Lock()
 		env.life = n + 1
-		env.confSubs, env.nursery = nil, nil
+		env.net.confSubs, env.nursery = nil, nil
 		w.mu.Unlock()
 		db, err := c13OpenDB(path)
 		if err != nil {
@@ -444,7 +444,7 @@ func c13Run(t *testing.T, sc *ccScenario, plan *c13Plan,
 	if plan.realNursery {
 		out.nurseryLeft, _ = c13NurseryLeft(db)
 	}
-	out.nurseryConfs = env.nurseryConfs
+	out.nurseryConfs = env.net.confs
 	out.nurseryTimeoutTx = env.nurseryTimeoutTx
 	out.nurseryKidSweeps = env.nurseryKidSweeps
 	out.publishedConfirmed = env.publishedConfirmed
